@@ -123,6 +123,8 @@ def node_class_terms(repo: Repo) -> dict[str, tuple[ClassInfo, Term, Term, Funct
         em = real_method(repo, ci, "emit", "NodeProtocol")
         pa = real_method(repo, ci, "pc_after", "NodeProtocol")
         if em is None or pa is None:
+            if repo.subclasses(ci) and not any(n in ci.methods for n in ("emit", "pc_after")):
+                continue  # an intermediate base that only shares helpers: never instantiated as a node, its subclasses are checked
             raise AnalysisError(f"{ci.name}: emit/pc_after not found through the MRO")
         out[ci.name] = (ci, emit_term(repo, ci, em), advance_term(pa), em, pa)
     return out
